@@ -152,7 +152,13 @@ func refList(s string, upper bool) []string {
 			continue
 		}
 		if upper {
-			it = strings.ToUpper(it)
+			// codes are ASCII words: only a-z are letters of a code in another case
+			it = strings.Map(func(c rune) rune {
+				if c >= 'a' && c <= 'z' {
+					return c - 32
+				}
+				return c
+			}, it)
 		}
 		out = append(out, it)
 	}
@@ -261,7 +267,7 @@ func checkC18(replay string) {
 	boolEnvPool := []string{"true", "TRUE", "True", "1", "yes", "YES", "Yes", "on", "ON", " on ", "\ttrue\n", "t", "T", "false", "0", "no", "off", "2", "maybe", "y", "enabled", "tru", "truee", "01", "-1", " ", "ｔｒｕｅ", "true,false"}
 	boolFlagPool := []string{"true", "false", "1", "0", "t", "f", "T", "F", "TRUE", "FALSE", "True", "False"}
 	pathsPool := []string{"testdata", " zz_pool1 ", "sub_pool2\t", " testdata", "zz_pool1", "sub_pool2", "zz_pool1,sub_pool2", " zz_pool1 , sub_pool2 ,testdata", ",,zz_pool1,,", "nothing-matches", "ZZ_POOL1", "pool", "p/", "_test.go", "lib.go", "x.go", " ", ",", "zz_pool1 sub_pool2", "/p/"}
-	checksPool := []string{"IMM", " imm01 ", "\tIMM ", "ALL ", " pkgo02", "imm01", "Imm01,ctor", " TONL02 , PKGO ", "ALL", "all", "IMPL03", ",,", "IMM0", "XX", "IMM01,IMM02,IMM03", "ctor01", "PKGO02", "A L L", "IMM;CTOR", "IMM CTOR", "tonl"}
+	checksPool := []string{"IMM", " imm01 ", "\tIMM ", "ALL ", " pkgo02", "imm01", "Imm01,ctor", " TONL02 , PKGO ", "ALL", "all", "IMPL03", ",,", "IMM0", "XX", "IMM01,IMM02,IMM03", "ctor01", "PKGO02", "A L L", "IMM;CTOR", "IMM CTOR", "tonl", "ımm", "ımm01"}
 	var cfgs []c18cfg
 	vals := func(pool []string) []optVal {
 		out := []optVal{{false, ""}, {true, ""}}
